@@ -12,6 +12,12 @@ from vlib import log
 
 PROPS = ("C14",)
 
+# The models and traces of this family are small and the TLC runs short: what costs is JVM start-up
+# and JIT/GC threads when a dozen of them run side by side.  (vlib.tlc appends to JAVA_TOOL_OPTIONS.)
+_JVM = "-XX:ParallelGCThreads=2 -XX:TieredStopAtLevel=1 -Xmx3g"
+if _JVM not in os.environ.get("JAVA_TOOL_OPTIONS", ""):
+    os.environ["JAVA_TOOL_OPTIONS"] = (os.environ.get("JAVA_TOOL_OPTIONS", "") + " " + _JVM).strip()
+
 # invariant of a trace specification -> the properties it states
 INV_PROPS = {
     # Trace_QueryLifecycle: one query, judged on the harness's log alone (observer `o`, Quiesce line)
@@ -50,42 +56,6 @@ def q_cfg(variant="code", gen=False, nset="{1,2,3}", budgets=True, invs=Q_INV, p
 CHECK_DEADLOCK FALSE
 """ % (variant, "TRUE" if gen else "FALSE", nset, "TRUE" if budgets else "FALSE", spec,
        ("INVARIANTS " + invs) if invs and not props else "", ("PROPERTIES " + props) if props else "", extra)
-
-
-def stage1_query(tier, v, cov):
-    """Exhaustive TLC: the design of Query/sender admits no bad state and always returns; each broken
-    variant must be caught by the invariant that is meant to catch it (vacuity guards)."""
-    runs = [("query safety n=1..3, all limiter budgets", q_cfg(), None),
-            ("query liveness Returns, Quiesces (weak fairness of steps and timers)", q_cfg(props="Returns Quiesces"), None),
-            ("variant nojoin must violate ReturnClean/ObsJoined", q_cfg("nojoin", invs="ReturnClean ObsJoined"), ("inv", ("ReturnClean", "ObsJoined"))),
-            ("variant nodereg must violate ReturnClean", q_cfg("nodereg", invs="ReturnClean"), ("inv", ("ReturnClean",))),
-            ("variant extrasend must violate ObsSendsBound", q_cfg("extrasend", invs="ObsSendsBound"), ("inv", ("ObsSendsBound",))),
-            ("variant noclosedck must violate ObsClosedNoSend", q_cfg("noclosedck", invs="ObsClosedNoSend"), ("inv", ("ObsClosedNoSend",))),
-            ("variant unbuffered must violate Quiesces", q_cfg("unbuffered", props="Quiesces"), ("prop", ("Quiesces",)))]
-    if tier == "thorough":
-        runs.insert(1, ("query safety n=1..4", q_cfg(nset="{1,2,3,4}"), None))
-
-    def one(run):
-        name, cfg, expect = run
-        return run, vlib.tlc("MC_QueryLifecycle", cfg, workers=4, timeout=900)
-
-    with ThreadPoolExecutor(max_workers=4) as ex:
-        results = list(ex.map(one, runs))
-    for (name, cfg, expect), r in results:
-        got = r.invariant if (expect and expect[0] == "inv") else r.property
-        log("  TLC %-72s %7d distinct %8d generated %5.1fs %s" % (name, r.distinct, r.generated, r.wall,
-                                                                 "(violated, as required: %s)" % got if expect and got in expect[1] else ""))
-        if expect:
-            if got not in expect[1]:
-                v.inconclusive.append("vacuity guard failed: '%s' gave inv=%s prop=%s err=%s" % (name, r.invariant, r.property, r.error))
-            continue
-        if not r.clean:
-            v.inconclusive.append("model run '%s' not clean: inv=%s prop=%s err=%s timeout=%s (a model-only counter-example is a "
-                                  "spec/design question, not a verdict about the code)" % (name, r.invariant, r.property, r.error, r.timed_out))
-            continue
-        cov["states"] += r.distinct
-        cov["transitions"] += r.generated
-        cov["mc_runs"].append(dict(run=name, distinct=r.distinct, generated=r.generated, depth=r.depth, wall_s=round(r.wall, 1)))
 
 
 def gen_scripts(tier, v, cov):
@@ -224,64 +194,285 @@ def query_key(f, start, segl):
             q = json.loads(x)
     api = start.get("api", "Query")
     if inv == "ObsNoGoroutines" and q:
-        key = "leak:%s:%s" % (api, ",".join(sorted(set(q.get("left", [])))) or "goroutine")
+        key = "leak:query:%s" % (",".join(sorted(set(q.get("left", [])))) or "goroutine")
     elif inv == "ObsNoHang":
-        key = "hang:%s" % api
+        key = "hang:query"
     else:
-        key = "%s:%s" % (inv, api)
-    what = ("%s violated by %s (NumTries=%s, limiter budget=%s) under schedule [%s] (script %s): %s"
+        key = "query:%s" % inv
+    what = ("%s violated by Server.%s (NumTries=%s, limiter budget=%s) under schedule [%s] (script %s): %s"
             % (inv, api, start.get("n"), start.get("budget"), start.get("hist"), start.get("script"), f["line"][:240]))
     return key, what
+
+
+def owner_key(f, start, segl):
+    inv = f["name"]
+    q = {}
+    for x in segl:
+        if '"OQuiesce"' in x:
+            q = json.loads(x)
+    if inv == "ObsOwnerResult":
+        key = "result:%s:%s" % (start.get("keyapi"), start.get("cause"))
+    else:
+        key = "%s:%s:%s" % ("hang" if q.get("hung") else "leak", start.get("keyapi"), start.get("cause"))
+    what = ("%s violated in owner scenario '%s' (api %s, starting nodes: %s, stop: %s at point %s, Peers reader: %s): "
+            "%s; left behind: %s transaction(s), goroutines %s"
+            % (inv, start.get("name"), start.get("api"), start.get("sn"), start.get("stop"), start.get("point"), start.get("cons"),
+               q.get("what") or ("hung" if q.get("hung") else "returned"), q.get("txns"), q.get("left")))
+    return key, what
+
+
+def drive_parts(binary, mode, seed, wd, parts, extra, only=None):
+    """Runs the driver in `parts` processes and validates each trace file with TLC."""
+    module, strict, relaxed = (("Trace_QueryLifecycle", "Trace_QueryLifecycle.cfg", "Trace_QueryLifecycle_relaxed.cfg") if mode == "query"
+                               else ("Trace_QueryLifecycle_Owners", "Trace_QueryLifecycle_Owners.cfg", "Trace_QueryLifecycle_Owners_relaxed.cfg"))
+    if only is not None:
+        parts = 1
+
+    def one(part):
+        out = os.path.join(wd, "%s-%d-%d.ndjson" % (mode, part, random.randrange(1 << 30)))
+        args = ["-mode", mode, "-seed", seed, "-out", out, "-part", part, "-parts", parts] + extra
+        if only is not None:
+            args += ["-only", only]
+        rc, so, se = vlib.run_driver(binary, args, timeout=1500)
+        if rc != 0:
+            raise vlib.Inconclusive("life driver (%s) failed rc=%s: %s" % (mode, rc, (se or "")[-3000:]))
+        st = parse_status(so, "life/" + mode)
+        tv = validate(module, strict, relaxed, out)
+        return out, st, tv
+
+    with ThreadPoolExecutor(max_workers=parts) as ex:
+        return list(ex.map(one, range(parts)))
 
 
 def run_query_part(prop, tier, seed, v, cov, binary, wd, scripts, only=None):
     sp = os.path.join(wd, "scripts.json")
     with open(sp, "w") as f:
         json.dump(scripts, f)
-    parts = 1 if only is not None else min(8, max(1, vlib.NCPU // 2))
-    jobs = list(range(parts))
-
-    def one(part):
-        out = os.path.join(wd, "q-%d.ndjson" % part)
-        args = ["-mode", "query", "-seed", seed, "-scripts", sp, "-out", out, "-part", part, "-parts", parts]
-        if only is not None:
-            args += ["-only", only]
-        rc, so, se = vlib.run_driver(binary, args, timeout=1500)
-        if rc != 0:
-            raise vlib.Inconclusive("life driver (query) failed rc=%s: %s" % (rc, (se or "")[-3000:]))
-        st = parse_status(so, "life/query")
-        tv = validate("Trace_QueryLifecycle", "Trace_QueryLifecycle.cfg", "Trace_QueryLifecycle_relaxed.cfg", out)
-        return out, st, tv
-
-    with ThreadPoolExecutor(max_workers=parts) as ex:
-        results = list(ex.map(one, jobs))
+    results = drive_parts(binary, "query", seed, wd, min(8, max(1, vlib.NCPU // 2)), ["-scripts", sp], only)
+    hangs = []
     for out, st, tv in results:
         lines = vlib.read_trace(out)
         cov["evaluations"] += st["scenarios"]
         cov["events_validated"] += st["events"]
+        cov["query_scripts_run"] += st["scenarios"]
         cov["query_scripts_diverged"] += st["diverged"]
         cov["query_stimuli_skipped"] += st["skipped"]
         cov["traces_validated_against_impl"] += tv["accepted_segments"]
-        if len(cov["samples"]) < 12 and lines:
-            cov["samples"] += [json.loads(x) for x in lines[:12 - len(cov["samples"])]]
+        if st.get("stopped_early"):
+            log("  note: a query driver stopped early after %s scenarios that hung or left something behind" % len(st["notes"]))
+        if len(cov["samples"]) < 10 and lines:
+            cov["samples"] += [json.loads(x) for x in lines[:10 - len(cov["samples"])]]
+        for x in lines:
+            m = re.search(r'"e":"(\w+)"', x)
+            e = m.group(1) if m else "?"
+            if e == "Ret":
+                e += ":" + json.loads(x)["class"]
+            elif e == "Send":
+                e += ":" + json.loads(x)["res"]
+            elif e == "DelayRet":
+                e += ":" + json.loads(x)["dec"]
+            elif e == "DeliverReply":
+                e += ":accepted" if '"acc":true' in x else ":dropped"
+            elif e == "Start":
+                d = json.loads(x)
+                cov["apis"][d["api"]] = cov["apis"].get(d["api"], 0) + 1
+                e = "Start:limiter" if d["budget"] != -1 else "Start"
+            cov["event_classes"][e] = cov["event_classes"].get(e, 0) + 1
+        hangs += [f for f in tv["findings"] if f["name"] == "ObsNoHang"]
+        tv["findings"] = [f for f in tv["findings"] if f["name"] != "ObsNoHang"]
         judge(prop, v, tv, lines, "query", query_key, cov)
+    if only is None:
+        # vacuity guard: every class of stimulus and of outcome the property quantifies over was really produced
+        need = ["Ret:reply", "Ret:ctxErr", "Ret:timeout", "Ret:sendErr", "Send:ok", "Send:err", "DelayRet:short", "DelayRet:long",
+                "DeliverReply:accepted", "DeliverReply:dropped", "Close", "CancelCtx", "Start:limiter", "Quiesce"]
+        missing = [c for c in need if not cov["event_classes"].get(c)]
+        if missing:
+            v.inconclusive.append("vacuous run: no real execution with %s" % ", ".join(missing))
+    # hang rule (DESIGN 5.7): a hang is reported only if the same schedule hangs on two more runs
+    for f in hangs[:3]:
+        rep = 0
+        for k in range(2):
+            for out, st, tv in drive_parts(binary, "query", seed, wd, 1, ["-scripts", sp], only=f["seg"]):
+                rep += any(x["name"] == "ObsNoHang" for x in tv["findings"])
+                lines = vlib.read_trace(out)
+        if rep == 2:
+            judge(prop, v, dict(inconclusive=[], deviations=[], findings=[f]), lines, "query", query_key, cov)
+        else:
+            v.inconclusive.append("a hung query (script %s) did not hang again on replay" % f["seg"])
+
+
+def run_owner_part(prop, tier, seed, v, cov, binary, wd, only=None):
+    results = drive_parts(binary, "owners", seed, wd, min(8, max(1, vlib.NCPU // 2)), [], only)
+    hangs = []
+    allst = []
+    for out, st, tv in results:
+        lines = vlib.read_trace(out)
+        allst += st["status"]
+        cov["evaluations"] += st["scenarios"]
+        cov["owner_scenarios_run"] += st["scenarios"]
+        cov["events_validated"] += st["events"]
+        cov["owner_scenarios_skipped"] += sum(1 for s in st["status"] if s["skip"])
+        for s in st["status"]:
+            if s["skip"]:
+                log("  note: owner scenario %s abandoned without verdict: %s" % (s["name"], s["skip"]))
+        cov["traces_validated_against_impl"] += tv["accepted_segments"]
+        if len(cov["samples"]) < 16 and lines:
+            cov["samples"] += [json.loads(x) for x in lines[:6]]
+        segs = {}
+        for x in lines:
+            segs.setdefault(vlib.seg_of(x), []).append(x)
+        keep = []
+        for f in tv["findings"]:
+            q = [json.loads(x) for x in segs.get(f["seg"], []) if '"OQuiesce"' in x]
+            if f["kind"] == "invariant" and q and q[-1].get("hung"):
+                hangs.append((f, segs[f["seg"]]))
+            else:
+                keep.append(f)
+        tv["findings"] = keep
+        judge(prop, v, tv, lines, "owner", owner_key, cov)
+    if hangs:
+        # hang rule: the same scenario must hang on two more runs (both reruns in parallel)
+        names = sorted(set(json.loads(sl[0])["name"] for f, sl in hangs))
+
+        def again(k):
+            res = drive_parts(binary, "owners", seed, wd, 1, [], only=",".join(names))
+            return set(s["name"] for out, st, tv in res for s in st["status"] if s["hung"])
+
+        with ThreadPoolExecutor(max_workers=2) as ex:
+            reps = list(ex.map(again, range(2)))
+        done = set()
+        for f, sl in hangs:
+            name = json.loads(sl[0])["name"]
+            if all(name in r for r in reps):
+                if (name, f["name"]) not in done:
+                    done.add((name, f["name"]))
+                    judge(prop, v, dict(inconclusive=[], deviations=[], findings=[f]), sl, "owner", owner_key, cov)
+            else:
+                v.inconclusive.append("owner scenario %s hung once but not on replay" % name)
+    if cov["owner_scenarios_skipped"] > 3:
+        v.inconclusive.append("%d owner scenarios did not reach their point" % cov["owner_scenarios_skipped"])
+
+
+def o_cfg(owner, nq, stop=True, watch=True, props="Returns RefreshReturns EndsClean", invs="TypeOK StopBeforeReturn ResultJustified"):
+    return """CONSTANTS
+ Owner = "%s"
+ NQ = %d
+ StopOnStartErr = %s
+ WatchCtx = %s
+SPECIFICATION FairSpec
+%s
+%s
+CHECK_DEADLOCK FALSE
+""" % (owner, nq, "TRUE" if stop else "FALSE", "TRUE" if watch else "FALSE",
+       ("INVARIANTS " + invs) if invs else "", ("PROPERTIES " + props) if props else "")
+
+
+def stage1(tier, v, cov):
+    """Exhaustive TLC.  Query/sender: no bad state for NumTries 1..3 and every limiter budget, every
+    query returns and everything quiesces (weak fairness of steps and timers); each broken variant is
+    caught by the invariant meant to catch it.  Owners: with the two repairs in, every owner stops its
+    traversal on every path and everything spawned ends; as the code is today (flags off) the model
+    shows the two defects - the design-level reproduction of DESIGN section 8 items 8 and 10."""
+    Q, O = "MC_QueryLifecycle", "MC_QueryLifecycle_Owners"
+    runs = [(Q, "query safety NumTries 1..3, all limiter budgets", q_cfg(), None),
+            (Q, "query liveness Returns, Quiesces (weak fairness)", q_cfg(props="Returns Quiesces"), None),
+            (Q, "variant nojoin must violate ReturnClean/ObsJoined", q_cfg("nojoin", invs="ReturnClean ObsJoined"), ("ReturnClean", "ObsJoined")),
+            (Q, "variant nodereg must violate ReturnClean", q_cfg("nodereg", invs="ReturnClean"), ("ReturnClean",)),
+            (Q, "variant extrasend must violate ObsSendsBound", q_cfg("extrasend", invs="ObsSendsBound"), ("ObsSendsBound",)),
+            (Q, "variant noclosedck must violate ObsClosedNoSend", q_cfg("noclosedck", invs="ObsClosedNoSend"), ("ObsClosedNoSend",)),
+            (Q, "variant unbuffered must violate Quiesces", q_cfg("unbuffered", props="Quiesces"), ("Quiesces",))]
+    nq = 2 if tier == "quick" else 3
+    for owner in ("Bootstrap", "Announce", "Get", "Put", "Refresh"):
+        runs.append((O, "owner %s (repaired design) safety + liveness NQ=%d" % (owner, nq), o_cfg(owner, nq), None))
+    for owner in ("Bootstrap", "Get", "Put"):
+        runs.append((O, "owner %s as coded (no Stop on starting-nodes error) must violate StopBeforeReturn" % owner,
+                     o_cfg(owner, 1, stop=False), ("StopBeforeReturn",)))
+    runs.append((O, "owner Announce as coded (getPeers ignores its context) must violate EndsClean", o_cfg("Announce", 1, watch=False),
+                 ("EndsClean",)))
+    if tier == "thorough":
+        runs.insert(1, (Q, "query safety NumTries 1..5", q_cfg(nset="{1,2,3,4,5}", budgets=False), None))
+
+    def one(run):
+        mod, name, cfg, expect = run
+        return run, vlib.tlc(mod, cfg, workers=2, timeout=900)
+
+    with ThreadPoolExecutor(max_workers=max(2, vlib.NCPU // 2)) as ex:
+        results = list(ex.map(one, runs))
+    for (mod, name, cfg, expect), r in results:
+        got = r.invariant or r.property
+        log("  TLC %-86s %6d distinct %7d generated %5.1fs %s" % (name, r.distinct, r.generated, r.wall,
+                                                                 "(violated, as required: %s)" % got if expect and got in expect else ""))
+        if expect:
+            if got not in expect:
+                v.inconclusive.append("vacuity guard failed: '%s' gave inv=%s prop=%s err=%s" % (name, r.invariant, r.property, r.error))
+            else:
+                cov["vacuity_guards"].append(dict(run=name, violated=got))
+            continue
+        if not r.clean:
+            v.inconclusive.append("model run '%s' not clean: inv=%s prop=%s err=%s timeout=%s (a model-only counter-example is a "
+                                  "spec/design question, not a verdict about the code)" % (name, r.invariant, r.property, r.error, r.timed_out))
+            continue
+        cov["states"] += r.distinct
+        cov["transitions"] += r.generated
+        cov["mc_runs"].append(dict(run=name, distinct=r.distinct, generated=r.generated, depth=r.depth, wall_s=round(r.wall, 1)))
+
+
+def new_cov():
+    return dict(mc_runs=[], vacuity_guards=[], samples=[], traces_validated_against_impl=0, states=0, transitions=0, evaluations=0,
+                events_validated=0, deviations_without_property_violation=0, query_scripts_run=0, query_scripts_diverged=0,
+                query_stimuli_skipped=0, owner_scenarios_run=0, owner_scenarios_skipped=0, event_classes={}, apis={})
 
 
 def run(prop, tier, seed, replay=None):
     t0 = time.time()
     v = vlib.Verdict(prop)
-    cov = dict(mc_runs=[], samples=[], traces_validated_against_impl=0, states=0, transitions=0, evaluations=0,
-               events_validated=0, deviations_without_property_violation=0, query_scripts_diverged=0, query_stimuli_skipped=0)
+    cov = new_cov()
     binary = vlib.go_build("life")
     wd = vlib.scratch("verif-life-")
-    if not replay:
-        stage1_query(tier, v, cov)
-    scripts = gen_scripts(tier, v, cov)
-    rng = random.Random(seed)
-    sel = scripts
-    run_query_part(prop, tier, seed, v, cov, binary, wd, sel)
+    if replay:
+        meta = json.load(open(os.path.join(replay, "meta.json")))
+        start = meta.get("start", {})
+        rseed = start.get("seed", seed)
+        if meta.get("kind") == "owner":
+            run_owner_part(prop, tier, rseed, v, cov, binary, wd, only=start.get("name"))
+        else:
+            scripts = [dict(cfg=dict(n=start["n"], budget=start["budget"], bwait=start["bwait"]), hist=start["hist"].split(),
+                            id=start["script"])]
+            run_query_part(prop, tier, rseed, v, cov, binary, wd, scripts, only=start["script"])
+    else:
+        with ThreadPoolExecutor(max_workers=2) as ex:
+            s1 = ex.submit(stage1, tier, v, cov)
+            gen = ex.submit(gen_scripts, tier, v, cov)
+            s1.result()
+            scripts = gen.result()
+        sel = scripts
+        if tier == "quick":
+            # every script with NumTries <= 2, a seeded half of the NumTries = 3 ones (all of them in the thorough tier)
+            rng = random.Random(seed)
+            sel = [s for s in scripts if s["cfg"]["n"] <= 2 or rng.random() < 0.5]
+        run_query_part(prop, tier, seed, v, cov, binary, wd, sel)
+        run_owner_part(prop, tier, seed, v, cov, binary, wd)
+        if tier == "thorough":
+            for k in range(1, 4):   # the concretisation (API, addresses, reply kind, node kinds) depends on the seed
+                run_query_part(prop, tier, seed * 100 + k, v, cov, binary, wd, scripts)
+                run_owner_part(prop, tier, seed * 100 + k, v, cov, binary, wd)
     rc = v.finish()
     cov.update(distinct_nontrivial=cov["traces_validated_against_impl"], exhaustive=False,
+               rule="query part: every finished behaviour of the gate-normal generator model (TLC; placements of reply, cancellation, "
+                    "Close, write failure on send i, limiter refusal/blocking, timer expiry around the sends; NumTries 1..3) is run "
+                    "against a fresh real Server through Query/Ping/PingQueryInput/FindNode/GetPeers/Get/Put/questionable ping with the "
+                    "sender goroutine parked in Conn.WriteTo / QueryResendDelay; every logged event is validated by TLC as a step of "
+                    "QueryLifecycle.tla and the Obs* invariants judge return class, writes, datagrams per t, pending transactions and "
+                    "goroutines left after the bound. owner part: Bootstrap/Announce/getput.Get/getput.Put/TableMaintainer against a "
+                    "simulated network {finish, no/failed starting nodes, ctx cancel / Server.Close / Announce.Close / StopTraversing at "
+                    "each quiescent point, Peers reader gone}, judged by Owners!MustEndFor on the API-level log",
                invariants=[k for k, p in INV_PROPS.items() if prop in p])
-    vlib.write_evidence(prop, tier, seed, cov, time.time() - t0, len(v.violations), assumptions=[])
+    vlib.write_evidence(prop, tier, seed, cov, time.time() - t0, len(v.violations),
+                        assumptions=["a leak/hang is what is still there 2 s (>= 2x the longest configured time-out, 3 x 1 ms) / 5 s after the "
+                                     "last stimulus; hangs must reproduce on two more runs",
+                                     "the asynchronous socket close of Server.Close is scheduled as late as possible (adversarial but legal)",
+                                     "the sender is controlled only through the two caller-supplied gates; races between two ready cases of "
+                                     "one select are explored by TLC only, the driver takes whichever the runtime picks and TLC validates it",
+                                     "owner scenarios: the inside of the traversal is not logged (C02-C04 cover it); only API-level events "
+                                     "and what is left behind are judged"])
     return rc
